@@ -2,7 +2,7 @@
    Property theorems only.  `run e dbg rl items` is the parser model on an item list; `lex_for tl s` is the item
    stream of the lexer model for a source string and an optional token limit. *)
 From ApolloVerif Require Import Base.Chars Lex.Item Lex.Fun Parse.Outcome Parse.Builder Parse.Limits Parse.Monad
-  Parse.Grammar Parse.Entry Parse.LosslessDefs Parse.Lossless Parse.NoPanic Parse.Compose.
+  Parse.Grammar Parse.Entry Parse.LosslessDefs Parse.Lossless Parse.NoPanic Parse.Compose Parse.Terminates.
 
 Inductive entry := EDoc | ESelSet | EType.
 Definition run_fuel (e : entry) : nat -> bool -> N -> list item -> poutcome presult :=
@@ -33,6 +33,38 @@ Proof. intros. apply C01_parser_no_panic_items. apply lex_for_names_ok. Qed.
 Check C01_parser_no_panic : forall e fuel tl rl s w,
   run_fuel e fuel false rl (lex_for tl s) <> PPanic w.
 Print Assumptions C01_parser_no_panic.
+
+Definition run (e : entry) : bool -> N -> list item -> poutcome presult :=
+  match e with
+  | EDoc => parse_document_items
+  | ESelSet => parse_selection_set_items
+  | EType => parse_type_items
+  end.
+
+(* The parser terminates: the fuel the entries run with (length items + 2: a bound on the nesting depth and on
+   the iterations of each loop) is never exhausted -- for every item list, every recursion limit, with or
+   without debug assertions.  Proof: no operation increases mu = |items the lexer will still yield| + [a current
+   token]; every loop iteration that continues and every nested call of the three recursive families consumes
+   at least one item (which is also what peek_while's debug_assert! checks). *)
+Theorem C01_parser_terminates : forall e dbg rl items, run e dbg rl items <> POutOfFuel.
+Proof.
+  intros e dbg rl items. destruct e; [apply document_terminates|apply selection_set_terminates|apply type_terminates].
+Qed.
+Check C01_parser_terminates : forall e dbg rl items, run e dbg rl items <> POutOfFuel.
+Print Assumptions C01_parser_terminates.
+
+(* together: for every source string, token limit and recursion limit, each entry RETURNS a tree and errors *)
+Theorem C01_parser_returns : forall e tl rl s, exists r, run e false rl (lex_for tl s) = POk r.
+Proof.
+  intros e tl rl s. destruct (run e false rl (lex_for tl s)) as [r|w|] eqn:E; [eauto| |].
+  - exfalso. destruct e.
+    + exact (C01_parser_no_panic EDoc _ tl rl s w E).
+    + exact (C01_parser_no_panic ESelSet _ tl rl s w E).
+    + exact (C01_parser_no_panic EType _ tl rl s w E).
+  - exfalso. revert E. apply C01_parser_terminates.
+Qed.
+Check C01_parser_returns : forall e tl rl s, exists r, run e false rl (lex_for tl s) = POk r.
+Print Assumptions C01_parser_returns.
 
 (* non-vacuity: the inputs that panicked before the repairs of D1 / D2 now return *)
 Example C01_nonvacuous :
